@@ -33,6 +33,8 @@ NOT PROVED (named gaps, exercised by the harness only):
 --   per frame the output contains the complete trajectories whatever detections are withheld
 --   after the first frame; and it equals detect-then-link when nothing is withheld.  (Statements
 --   about which local maxima blob images have; asserted by the harness in the `sep` regime.)
+--   The model-level half is proved in `Props/C14Recover.lean` (the relocation returns every dominant
+--   raw candidate with enough mass, the heaviest first); that a blob image has one stays exercised.
 (`bg_radius_covers`, formerly a named gap replaced by the run-time check `uncovered = []`, is now
 a theorem: `Props/C14Bg.lean` — `bg_radius_covers`, `uncovered_eq_nil`, `reloc_clear_of_hash_all`.
 The labelling is no longer judged by the shadow relation alone: `Model/FindLinkAlgo.lean` models
